@@ -1464,6 +1464,7 @@ class Operation(_IRNode):
             or len(self.successors) != len(other.successors)
             or self.attributes != other.attributes
             or self.properties != other.properties
+            or self.result_types != other.result_types
         ):
             return False
         if (
